@@ -2,7 +2,7 @@
 """Generate /verif/MANIFEST.json from the table below (kept next to the checks so the two stay in sync)."""
 import json, subprocess
 
-REPO_HOOK_COMMITS = ["44a8587"]
+REPO_HOOK_COMMITS = ["44a8587", "e060c76"]
 
 # id -> (engine, category, technique, text, note, design_ref)
 CHECKS = {
@@ -24,6 +24,18 @@ CHECKS = {
  "C19": ("e1 seq", "model_checking", "state invariant (counters = ground truth decoded from the files) on every state reached by bounded-exhaustive words",
          "After every step of every word of depth 5/6 of the C05 space the per-file live/dead/dead-bytes counters are compared with ground truth computed by an independent decoder of the data files and the index; overflow checks are on, so an underflow panics.",
          "Same alphabet limits as C01; the independent decoder is validated against the index on every state.", "DESIGN.md §5 E1, §6 C19"),
+ "C03": ("e2 crash", "fault_enumeration", "exhaustive crash-point enumeration: every prefix of the recorded mutating system calls of every bounded workload, recovered by the real code",
+         "Every workload word of length 0..4 (quick) / 0..5 (thorough) over {set a/b small + 9000 B, del, merge, reopen} x 4|6 configurations is recorded on the real store; for every boundary between two mutating file-system calls the directory a killed process would leave is rebuilt, opened by the real recovery code in a forked child (twice, covering a crash right after recovery's own create) and every key is read: acked operations must all be there, the in-flight one applied or not, nothing else.",
+         "Failure model of the property (a prefix of the system calls survives; page cache survives a kill). Materialiser validated on every execution against the live directory.", "DESIGN.md §5 E2, §6 C03"),
+ "C09": ("e2 crash", "fault_enumeration", "exhaustive crash-point x per-file loss-vector enumeration under sync=always, recovered by the real code",
+         "As C03 with sync=always and depth 3|4, and for every crash point every per-file loss vector (each file keeps any length between its last fsync and its current length: write boundaries in quick, byte-granular in thorough). Every operation acknowledged before the crash point must be readable after recovery.",
+         "Failure model of the property: per file, a suffix after the last fsync may be lost; creations and removals are durable.", "DESIGN.md §5 E2, §6 C09"),
+ "C14": ("e1 seq + e2 crash", "model_checking", "trace and directory invariants monitored on every execution of the bounded-exhaustive word space and on the recovery of every crash directory",
+         "On every word of depth 4|6 (E1) and on the recovery of every crash directory of every workload of depth <=3|4 (E2): every store file is created with O_CREAT|O_EXCL|O_APPEND, written only by the incarnation that created it, never truncated/renamed/pwritten/mapped writable/reopened for writing; previously written bytes are a prefix of the file afterwards; every created data id is above every id the directory ever contained (also across crash + recovery); one hint file per newest data id; no data file exceeds max_file_size by more than its last entry.",
+         "System calls are observed by in-executable libc interposition (open/open64, write, writev, pwrite, fsync, unlink, rename, truncate, ftruncate, mmap).", "DESIGN.md §6 C14"),
+ "C20": ("e2 crash", "fault_enumeration", "exhaustive single-fault enumeration: every mutating call position x errno / short write of every bounded workload",
+         "Every workload word of length 3|4 (every fault position) and every shorter word (fault in the last operation) x 4|6 configurations; one fault per run at each individual create / write / fsync / unlink (EIO; ENOSPC for writes and creates; short writes as a benign deviation that must change nothing). The failed operation must return Err, nothing may panic or abort, every other operation must succeed, and reads in the running process and after a restart must equal the map model with the failed operation applied or not.",
+         "One transient fault per run; faulted runs execute in forked children so that a process abort is an observation.", "DESIGN.md §5 E2, §6 C20"),
 }
 
 NOT_YET = {
